@@ -206,10 +206,39 @@ def observe_loader_case(case, workdir):
             seen.setdefault(j % len(hp), r)
         for p in hp:
             os.remove(p)
+        # differently configured loaders in one process: the result of (configuration, file) must not depend on
+        # which other loaders ran before (the prop file compares two processes that use opposite orders)
+        table = {}
+        if case.get('hpoa_rich'):
+            rp = []
+            for j, text in enumerate(case['hpoa_rich']):
+                p = os.path.join(workdir, 'rich%d_%d.hpoa' % (os.getpid(), j))
+                with open(p, 'w', encoding='utf-8') as fh:
+                    fh.write(text)
+                rp.append(p)
+            order = [(ci, fi) for ci in range(len(HPOA_CONFIGS)) for fi in range(len(rp))]
+            order = order + order[::2]
+            if case.get('rev'):
+                order = order[::-1]
+            for ci, fi in order:
+                cs, sv = HPOA_CONFIGS[ci]
+                try:
+                    r = impl_C16.canon_diseases(SimpleHpoaDiseaseLoader(hpo, cohort_size=cs, salvage_negated_frequencies=sv).load(rp[fi]))
+                except Exception as e:
+                    r = 'raised ' + exn_name(e)
+                key = '%d/%s:%d' % (cs, sv, fi)
+                if key in table and table[key] != r:
+                    direct.append(f'HPOA file {fi} loads differently with cohort_size={cs}, salvage={sv} after differently configured loaders ran')
+                table.setdefault(key, r)
+            for p in rp:
+                os.remove(p)
     finally:
         for p in paths:
             os.remove(p)
-    return {'direct': direct}
+    return {'direct': direct, 'hpoa_table': table}
+
+
+HPOA_CONFIGS = [(50, False), (10, True), (50, True), (10, False), (7, True)]      # first and last differ in both parameters
 
 
 def observe(payload):
